@@ -20,6 +20,9 @@ type funcIndex map[string]*ssa.Function
 
 var keepAll bool
 
+// repoRoot: the tree under verification (flag -repo; /repo unless a scratch copy is checked).
+var repoRoot = "/repo"
+
 func loadProgram(repo string, debug bool) (*G, funcIndex, error) {
 	cfg := &packages.Config{Mode: packages.LoadAllSyntax, Dir: repo, BuildFlags: []string{"-tags=verif"},
 		Env: append(os.Environ(), "GOFLAGS=-mod=mod", "GOPROXY=off", "GOSUMDB=off", "GOTOOLCHAIN=local")}
@@ -173,6 +176,7 @@ func main() {
 	fs.Parse(args)
 	pos = append(pos, fs.Args()...)
 	keepAll = *keep
+	repoRoot = strings.TrimSuffix(*repo, "/")
 	switch cmd {
 	case "check":
 		if len(pos) != 1 {
